@@ -21,7 +21,7 @@ def site_of(e):
     """innermost frame inside cryptoparser: 'common/parse.py:parse_ssh_mpint'"""
     tb = traceback.extract_tb(e.__traceback__)
     for fr in reversed(tb):
-        if '/repo/cryptoparser/' in fr.filename or fr.filename.startswith('/repo/cryptoparser'):
+        if '/cryptoparser/' in fr.filename and '/site-packages/' not in fr.filename:
             return fr.filename.split('/cryptoparser/', 1)[1] + ':' + fr.name
     return 'outside'
 
